@@ -3,3 +3,4 @@ pub mod axfam;
 pub mod axnl;
 pub mod funfam;
 pub mod funlang;
+pub mod corefam;
